@@ -11,6 +11,7 @@ string creator_file (string file) { return "Root"; }
 string get_root_uid () { return "Root"; }
 string get_bb_uid () { return "Backbone"; }
 int valid_seteuid (object ob, string newuid) { return 1; }
+int valid_save_binary (string file) { return 1; }
 // ed: a file name that does not start with '/' is made absolute by the master
 string make_path_absolute (string s) { return "/d/" + s; }
 int valid_link (string from, string to) { if (!quiet) VL ("valid_link [" + from + "] [" + to + "]"); return 1; }
